@@ -40,7 +40,7 @@ class Contract:
 
 
 class Engine:
-    def __init__(self, timeout_ms=10000, feas_timeout_ms=1500, max_paths=4000):
+    def __init__(self, timeout_ms=10000, feas_timeout_ms=1500, max_paths=40000):
         self.timeout_ms, self.feas_timeout_ms, self.max_paths = timeout_ms, feas_timeout_ms, max_paths
         self.contracts = {}
         self.loop_specs = {}
@@ -605,6 +605,12 @@ class Engine:
         rep["time_s"] = time.time() - t0
         self.fn_reports[key] = rep
         return rep
+
+    def run_one(self, key, case_name, prefix):
+        """Explore exactly one path (decision prefix) of one contract case.  Returns (pending prefixes, exit kinds, undecided, report)."""
+        r = self.verify(key, only_case=case_name, roots=[list(prefix)], split_only=True)
+        case = r.get("cases", {}).get(case_name, {})
+        return [list(p) for p in self.split_pending], case.get("exits", {}), list(r.get("undecided", [])), r
 
     def frame_exit(self, c, ct, old, a, node, label):
         mods = ct.modifies(c, a)
